@@ -35,10 +35,7 @@ pub proof fn lemma_sum_mono(ops: Seq<DiffOp>, i: int, j: int)
 }
 
 /// a start state as a creator configures it: canonical (no open run), box representable in usize
-pub open spec fn start_ok(r0: St) -> bool {
-    wf(r0) && r0.ro == r0.oc && r0.rn == r0.nc && r0.po <= r0.oc && r0.pn <= r0.nc && 0 <= r0.oc && 0 <= r0.nc
-    && r0.oe <= usize::MAX && r0.ne <= usize::MAX && r0.lvl >= 1
-}
+pub open spec fn start_ok(r0: St) -> bool { start_ok0(r0) && r0.lvl >= 1 }
 
 pub open spec fn full_box(r0: St) -> OBox { OBox { o0: r0.oc, n0: r0.nc, oe: r0.oe, ne: r0.ne } }
 
@@ -177,6 +174,30 @@ pub proof fn lemma_op_step<Old: Index<usize> + ?Sized, New: Index<usize> + ?Size
         _ => {}
     }
     lemma_step_exact(irel, ist, e);
+}
+
+} // verus!
+verus! {
+
+/// what running the events of an op list adds up to (no validity needed)
+pub proof fn lemma_run_ops_acc(rel: Rel, st: St, ops: Seq<DiffOp>)
+  ensures ({ let s2 = run_rel(rel, st, evs_of(ops)); let n = ops.len() as int;
+      s2.oc == st.oc + osum(ops, n) && s2.nc == st.nc + nsum(ops, n) && s2.eqs == st.eqs + esum(ops, n)
+      && s2.dels == st.dels + osum(ops, n) - esum(ops, n) && s2.inss == st.inss + nsum(ops, n) - esum(ops, n) })
+  decreases ops.len()
+{
+    reveal(step_rel);
+    if ops.len() == 0 {
+        assert(evs_of(ops) =~= Seq::<Ev>::empty());
+    } else {
+        let o0 = ops.drop_last(); let x = ops.last(); let n0 = o0.len() as int;
+        lemma_run_ops_acc(rel, st, o0);
+        assert(o0.push(x) =~= ops);
+        lemma_evs_of_push(o0, x);
+        lemma_run_push(rel, st, evs_of(o0), ev_of(x));
+        lemma_sum_push(o0, x, n0);
+        assert(ops[n0] == x);
+    }
 }
 
 } // verus!
